@@ -170,10 +170,14 @@ def check(F, R, tier):
         t = sym_nstr(sym(sc, c.site.args[1]))
         R.ob('CONST-ARG', 'CONST-ARG::%s::expected=CHANNEL_STATE_CLOSED' % fnkey(sc), 'CHANNEL_STATE_CLOSED' in t, 'set_channel_state CASes from `%s`: a channel still open for an older request cannot be taken over' % t, c.site.where, sc)
         t2 = sym_nstr(sym(sc, c.site.args[2]))
-        R.ob('FLOW', 'FLOW::%s::new=state' % fnkey(sc), t2 == 'state.0', 'installs `%s`' % t2, c.site.where, sc)
+        R.ob('FLOW', 'FLOW::%s::new=state' % fnkey(sc), lib.param_is(sc, c.site.args[2], 'state', 3, ('.0',)), 'installs `%s`' % t2, c.site.where, sc)
     # result is_ok() is the return value (a refused open is reported)
-    iso = sc.calls(r'Result::<.*>::is_ok$')
-    R.ob('FLOW', 'FLOW::%s::returns-CAS-success' % fnkey(sc), len(iso) == 1 and iso[0].dest == [0], 'returns whether the channel could be opened', iso[0].where if iso else sc.file, sc)
+    for c in cas[:1]:
+        v, how = lib.returns_success_of(sc, F, c.site)
+        if v is None:
+            R.notes.append('FLOW::%s::returns-CAS-success: return shape not recognised (%s) - not judged' % (fnkey(sc), how))
+        else:
+            R.ob('FLOW', 'FLOW::%s::returns-CAS-success' % fnkey(sc), v, 'returns whether the channel could be opened (%s)' % how, c.site.where, sc)
     cc = F.fn(Z + 'close_channel')
     cas = atomics(cc, None, 'compare_exchange(_weak)?')
     R.floor('CAS in close_channel', len(cas), 2)
